@@ -12,4 +12,4 @@ for id in $(ls seeded | grep -v MATRIX); do
   own=$(for r in $rules; do echo $r; done | grep -c "$prop")
   echo -e "$id\t$prop\t${rules:-MISSED}\t$( [ "$own" -gt 0 ] && echo own-property || ( [ -n "$rules" ] && echo other-property-only || echo missed ))" >> seeded/MATRIX.tsv
 done
-column -t -s$'\t' seeded/MATRIX.tsv
+cat seeded/MATRIX.tsv
